@@ -153,7 +153,23 @@ def cleanup_network(network: BooleanNetwork) -> BooleanNetwork:
             f"Parametrized networks are not supported. Found implicit parameters: {names}."
         )
 
-    return network.infer_valid_graph()
+    network = network.infer_valid_graph()
+
+    # A free input (no regulators, no update function) keeps its value forever.
+    # The Petri net encoding already treats it that way, but the symbolic
+    # (AEON) encoding would treat it as an unknown constant, and the `.aeon`
+    # serialization drops such a variable completely if nothing depends on it.
+    # To keep all representations consistent, free inputs are given an
+    # explicit identity update function.
+    for var in network.variables():
+        if network.get_update_function(var) is None:
+            name = network.get_variable_name(var)
+            network.ensure_regulation(
+                {"source": name, "target": name, "essential": True, "sign": "+"}
+            )
+            network.set_update_function(var, name)
+
+    return network
 
 
 def source_SCCs(bn: BooleanNetwork) -> list[list[str]]:
